@@ -91,6 +91,22 @@ crate::fs_harness!(c09_fail_truncated @ 64 => { corrupt_no_leak::<U32, 20, 64>()
 crate::fs_harness!(c09_fail_bad_magic @ 64 => { corrupt_no_leak::<U32, 64, 3>() });
 crate::fs_harness!(c09_fail_bad_tag @ 64 => { corrupt_no_leak::<OptU8, 64, 61>() });
 
+/// (ii) I/O failure while reading the file (the file ends before the length its
+/// metadata reported): `load_mem` fails, frees the block exactly once.
+crate::fs_harness!(c09_fail_read_error @ 64 => {
+    let (_x, path) = file_of::<U32>();
+    #[cfg(kani)]
+    unsafe { FILE_OVER = 5; }
+    let r = <u32>::load_mem(&path);
+    let failed = r.is_err();
+    match r { Ok(c) => { core::mem::forget(c); } Err(e) => { drop(e); } }
+    #[cfg(kani)]
+    unsafe {
+        assert!(failed, "C09: a file that ends early is refused");
+        assert!(!kani::mem::can_dereference(LAST_ALLOC as *const u8), "C09: a failed load leaks the backing region");
+    }
+});
+
 /// (iii) probe: a reference copied out through Deref outlives the case.
 crate::fs_harness!(c09_escape_deref @ 64 => {
     let x: [u8; 2] = any();
